@@ -6,7 +6,8 @@
 (*                 corner cases - ELF tag without sections, memory map without entries, empty        *)
 (*                 command line, minimal framebuffer tag - so that each also occurs LAST, flush       *)
 (*                 against the inaccessible page behind the end tag)                                 *)
-(*  mmap family  : entry sizes 24/32/40, <= MaxEnt entries, every type of {0..6, 2^31, 2^32-1}        *)
+(*  mmap family  : entry sizes 24/32/40, <= MaxEnt entries, every type of {0..6, 2^31, 2^32-1};       *)
+(*                 entry sizes 28 and 264 with two entries                                           *)
 (*  cmd family   : every command line over {'a', '=', ' ', TAB} up to CmdLen characters              *)
 (*  elf family   : <= MaxSec sections, empty / non-empty, every name offset, string table anywhere    *)
 (*  fb family    : indexed (palettes of 0, 1, 2, 4 colours) / RGB / EGA / unknown type                *)
@@ -21,6 +22,8 @@ Types == {<<0, 0>>, <<0, 1>>, <<0, 2>>, <<0, 3>>, <<0, 4>>, <<0, 5>>, <<0, 6>>, 
 Ent(j, t) == [a |-> AddrOf(j), l |-> LenOf(j), t |-> t]
 Mmap(es, ts) == [k |-> "mmap", es |-> es, ents |-> [j \in 1..Len(ts) |-> Ent(j, ts[j])]]
 MmapSeeds(maxEnt) == { <<Mmap(es, ts)>> : es \in {24, 32, 40}, ts \in UNION {[1..n -> Types] : n \in 0..maxEnt} }
+                     \* entry sizes that are no multiple of 8 and beyond 2^8 (two entries: the second is reached only with the right stride)
+                     \cup { <<Mmap(es, <<t, u>>)>> : es \in {28, 264}, t \in {<<0, 1>>, <<0, 5>>}, u \in {<<0, 3>>, <<65535, 65535>>} }
 
 Chars == {97, 61, 32, 9}
 Cmd(s) == [k |-> "cmd", s |-> s]
@@ -51,6 +54,6 @@ MCOrderMenu == { Cmd(<<97, 61, 97>>), Cmd(<<>>),
                  Fb(1, 32, <<16, 8, 8, 8, 0, 8>>), Fb(2, 16, <<>>),
                  Elf(0, <<StrSec, Sec(1, <<0, 6>>, 2, W(4096))>>), Elf(0, <<StrSec>>), Elf(0, <<>>),
                  Fb(0, 8, <<2, 0, 16, 8, 8, 8, 0, 8>>),
-                 Other(2, 2), Other(21, 3), Other(10, 7), Other(3, 5), Other(7, 0), Other(262, 4) }
+                 Other(2, 2), Other(-2147483642, 3), Other(10, 7), Other(3, 5), Other(7, 0), Other(262, 4) }
 MCSeeds == MmapSeeds(MaxEnt) \cup CmdSeeds(CmdLen) \cup FbSeeds \cup ElfSeeds(MaxSec)
 ====
